@@ -161,7 +161,7 @@ func genC08(t *core.Tape, tier string) *Scenario {
 	}
 	// an instrumented custom (de)compressor told to fail once
 	if t.Bool(1, 3, "compfault") {
-		sc.CompFault = &compFault{Op: []string{"write", "close", "reset", "read"}[t.Choose(4, "fault.op")], At: 1 + t.Choose(6, "fault.at")}
+		sc.CompFault = &compFault{Op: []string{"write", "close", "reset", "read"}[t.Choose(4, "fault.op")], At: 1 + t.Choose(6, "fault.at"), WrapEOF: t.Bool(1, 3, "fault.wraps.eof")}
 		sc.CompFaultSide = t.Choose(2, "fault.side")
 		sc.Notes["compressor_fault_planned"]++
 	}
